@@ -1002,3 +1002,26 @@ func GenJoinMix(t *rapid.T, cfg GenCfg) *Spec {
 	}
 	return sp
 }
+
+// GenTwoJoins: the graph's (map) input passes through a pass-through node and fans out into two joins, each of
+// which also merges the keyed output of a second producer of the same step.  In Collect / Transform calls the
+// input is an array-backed stream that is copied for the two joins.
+func GenTwoJoins(t *rapid.T, cfg GenCfg) *Spec {
+	paras := []string{"I", "IS", "IT", "ISCT", "S", "T", "C", "SC"}
+	lambda := func(key, in string) NodeSpec {
+		n := NodeSpec{Key: key, Kind: "lambda", In: in, Digest: true, Chunks: rapid.IntRange(1, 3).Draw(t, "chunks")}
+		n.OutputKey = key
+		if cfg.Paradigms {
+			n.Para = paras[rapid.IntRange(0, len(paras)-1).Draw(t, "para")]
+		}
+		return n
+	}
+	sp := &Spec{Mode: []string{"pregel", "dag"}[rapid.IntRange(0, 1).Draw(t, "twoJoinsMode")], In: "M", Out: "M"}
+	sp.Nodes = append(sp.Nodes, NodeSpec{Key: "s", Kind: "pass", In: "M"}, lambda("p", "M"), lambda("j1", "M"), lambda("j2", "M"))
+	sp.Edges = []Edge{{From: Start, To: "s"}, {From: Start, To: "p"}, {From: "s", To: "j1"}, {From: "s", To: "j2"}, {From: "p", To: "j1"}, {From: "p", To: "j2"}, {From: "j1", To: End}, {From: "j2", To: End}}
+	if rapid.Bool().Draw(t, "thirdJoin") {
+		sp.Nodes = append(sp.Nodes, lambda("j3", "M"))
+		sp.Edges = append(sp.Edges, Edge{From: "s", To: "j3"}, Edge{From: "p", To: "j3"}, Edge{From: "j3", To: End})
+	}
+	return sp
+}
